@@ -6,7 +6,7 @@ from __future__ import annotations
 
 from typing import Iterator
 
-from ..explore import asdl, charspace, edits, layout, pylib, subspace, tokspace
+from ..explore import asdl, charspace, edits, layout, pylib, spell, subspace, tokspace
 
 TOK_BOUNDS = {
     # vocab: (quick n, thorough n)
@@ -40,6 +40,8 @@ def units(tier: str, use: tuple[str, ...], tok_vocabs: tuple[str, ...] = ("expr"
         us += charspace.units("pylay", "bare", 4 if q else 5)
     if "lib" in use:
         us += pylib.units(tier, "plain")
+    if "spell" in use:
+        us += spell.number_units(5 if q else 6) + spell.prefix_units() + spell.ident_units()
     return us
 
 
@@ -67,6 +69,9 @@ def cases(unit: tuple) -> Iterator[tuple[str, str]]:
             yield s, "exec"
     elif k == "pylib":
         yield from pylib.expand(unit)
+    elif k == "spell":
+        for s in spell.expand(unit):
+            yield s, "exec"
     else:
         raise ValueError(unit)
 
@@ -95,4 +100,6 @@ def describe(tier: str, use: tuple[str, ...], tok_vocabs: tuple[str, ...], tok_s
         parts.append("E-CHR pylay^<=" + ("4" if q else "5"))
     if "lib" in use:
         parts.append(pylib.describe(tier))
+    if "spell" in use:
+        parts.append(spell.describe(5 if q else 6))
     return "; ".join(parts)
